@@ -180,11 +180,11 @@ ClausesOfVar(v) ==
     [] OTHER -> { "eq_" \o v }
 Outcome(r, failed, v) == IF \E k \in 1..Len(r.res.raised) : r.res.raised[k] = v THEN "raises"
                          ELSE IF ClausesOfVar(v) \cap failed # {} THEN "wrong" ELSE "ok"
-\* the failure a clause reports is the one Mech_observed transcribes (stale side tables of the source's edge
+\* the failure a clause reports is the one Mech_prefix transcribes (stale side tables of the source's edge
 \* construction on the result's edge table) -- and nothing else
 StaleExplains(r, failed, c) ==
   /\ r.prov = "derived" /\ r.err = "" /\ r.op = "grid"
-  /\ LET p == OwnOutcome("face_edge", AttrsAfterSlice(Mech_observed, r.prov), ShapeOf(r)) IN
+  /\ LET p == OwnOutcome("face_edge", AttrsAfterSlice(Mech_prefix, r.prov), ShapeOf(r)) IN
        /\ p # "ok"
        /\ Outcome(r, failed, "face_edge") = p
        /\ \/ c \in UNION { ClausesOfVar(v) : v \in DependsOnFaceEdge \ { "holes" } }
